@@ -241,3 +241,12 @@ func LenViaWeakBoolBad(b []byte) [4]byte {
 	}
 	return [4]byte(b)
 }
+
+func incompleteB(b []byte) bool { return b == nil || len(b) != 4 }
+
+func LenViaNegatedBoolOK(b []byte) [4]byte {
+	if incompleteB(b) {
+		return [4]byte{}
+	}
+	return [4]byte(b)
+}
